@@ -178,7 +178,13 @@ pub fn check_package(opts: PackageInputs) -> Result<InterfaceUnit, CompilationEr
     let mut dep_hashes = BTreeMap::new();
 
     for dep in deps {
-        if dep == "Builtin" || dep == opts.package {
+        if dep == opts.package {
+            return Err(compile_error(format!(
+                "package dependency cycle detected: package {} imports itself",
+                opts.package
+            )));
+        }
+        if dep == "Builtin" {
             continue;
         }
         let unit = load_interface_from_paths(&dep, &opts.interface_paths)?;
@@ -212,7 +218,13 @@ pub fn build_package(opts: PackageInputs) -> Result<CoreUnit, CompilationError> 
     let mut dep_units = Vec::new();
 
     for dep in deps {
-        if dep == "Builtin" || dep == opts.package {
+        if dep == opts.package {
+            return Err(compile_error(format!(
+                "package dependency cycle detected: package {} imports itself",
+                opts.package
+            )));
+        }
+        if dep == "Builtin" {
             continue;
         }
         let unit = load_interface_from_paths(&dep, &opts.interface_paths)?;
